@@ -479,7 +479,7 @@ pub fn rule_for(property: &str) -> String {
   match property {
     "C12" => "scenario = generated chain indexed twice: reference (one update, commit interval 5000, prefetch 31 ahead, no reopen) and subject (generated commit interval, update partition incl. height limits, reopen points, lag, batch cuts, cache size, transient F/T errors); masked dumps compared at the tip and at one intermediate checkpoint; non-trivial = at least two update calls and three transactions; distinct by (schedule+config digest, final index digest)".into(),
     "C15" => "scenario = generated chain indexed under one of the seven reduced combinations of {sats, addresses, transactions} with a generated transparent schedule, compared by projection with the all-indexes twin; non-trivial = at least one inscription or rune exists and, when neither sats nor addresses are indexed, at least one spent output was fetched from the node; distinct by (schedule+config digest, final index digest)".into(),
-    "C13" => "scenario = generated history (commit interval 1..6, savepoint interval 1..5, max savepoints 1..3) with ONE disk fault placed after a fault-free probe of the same history: crash at a disk operation (uniform, first operation after a sync, or the sync itself), crash at a named point on the commit / savepoint path, EIO, or ENOSPC; recovery image clean / torn / all-written; non-trivial = the fault actually fired and both oracles (state after restart = uninterrupted index of a committed height within [last acknowledged, in flight]; resumed tip = uninterrupted tip) were evaluated; distinct by (history+fault placement digest, final index digest)".into(),
+    "C13" => "scenario = generated history (commit interval 1..6, savepoint interval 1..5, max savepoints 1..3) with ONE disk fault placed after a fault-free probe of the same history: crash at a disk operation (uniform, first operation after a sync, or the sync itself), crash at a named point on the commit / savepoint path, EIO, or ENOSPC; recovery image clean / torn / all-written; non-trivial = the fault actually fired and both oracles (state after restart = uninterrupted index of a committed height within [last acknowledged, in flight]; resumed tip = uninterrupted tip) were evaluated; every fourth history instead ends with a reorganisation (mostly within the depth the savepoints can undo) and the fault lands in the update that rolls it back (named points reorg.before / reorg.restored / reorg.after, the first 40 disk operations, or uniform): state after restart = uninterrupted index of that height on the abandoned or on the new chain, resumed result = from-scratch index of the new best chain (or the reorganisation is reported unrecoverable); distinct by (history+fault placement digest, final index digest)".into(),
     "C14" => "scenario = generated history with savepoint interval 1..12, max savepoints 1..4: growth, partial indexing (index far behind the tip), reorganisations of depth 1..30 (biased to the recoverable boundary) between updates and at named points inside updates (before/after each commit, between the savepoint transactions), consecutive reorganisations, prefetch lag 0..31; then up to three updates on the quiet node; allowed outcomes: Ok with masked dump equal to a from-scratch index of the final best chain, or Unrecoverable with the status flag; non-trivial = at least one reorganisation happened and ord either rolled back at least once or reported unrecoverable; distinct by (history digest, final index digest)".into(),
     "C37" => "scenario = generated chain indexed with an event receiver under a transparent schedule (commit intervals, update partition, reopen points, lag, transient prefetch errors); after every update the event stream so far is folded (locations, charms at creation, parents, etchings, mint counts and amounts, burned totals, per-outpoint balances with inputs cleared by the transaction each event names) and compared with the index; non-trivial = at least three events of at least two kinds; distinct by (schedule+config digest, final index digest)".into(),
     "C18" => "scenario = generated chain (inscriptions with parents, delegates, reinscriptions, runes) indexed under a transparent schedule; at the final and one intermediate quiescent point the real explorer router is driven in-process: every inscription on /inscription/<id|number> and /r/inscription, all pages of /r/children and /r/parents, /inscriptions/block/<h>, /sat/<n>, /r/sat/<n> and /r/sat/<n>/at/<k> for every k from -(n+1) to n, /output/<o> for every inscribed or runic output plus a sample, /blockheight; fields compared with stored entries, the reference model (value, address, spent, sat ranges, rune balances, sat location) and creation order; non-trivial = at least two inscriptions and ten requests; distinct by (schedule+config digest, final index digest)".into(),
